@@ -328,14 +328,18 @@ def build(case):
                      "constraint": f"indexed-repeat(${{{t}}}, ${{{R}}}, 1) = ${{{u}}}",
                      # two calls in one expression, then a plain reference after them
                      "required": f"indexed-repeat(${{{t}}}, ${{{R}}}, 1) + indexed-repeat(${{{u}}}, ${{{R}}}, 2) > ${{{t}}}",
-                     "read_only": f"${{{u}}} = 1 or indexed-repeat(${{{t}}}, ${{{R}}}, ${{{u}}}) = indexed-repeat(${{{t}}}, ${{{R}}}, 3) or ${{{u}}} = 2"}
+                     "read_only": f"${{{u}}} = 1 or indexed-repeat(${{{t}}}, ${{{R}}}, ${{{u}}}) = indexed-repeat(${{{t}}}, ${{{R}}}, 3) or ${{{u}}} = 2",
+                     # plain references to the same names in later columns of the same row
+                     "bind::bz": f"${{{t}}} = 106 and ${{{u}}} = 107", "instance::ia": f"${{{t}}}"}
         elif shape == "instpred":
             cells = {"calculation": f"instance('c')/root/item[name = ${{{t}}}]/label",
                      "label": f"L instance('c')/root/item[name = ${{{t}}}]/label l",
                      # text after a complete lookup that merely looks like the start of another one stays text
                      "hint": f"H instance('c')/root/item[name = ${{{t}}}]/label then instance( and instance('c') end",
                      "relevant": f"instance('c')/root/item[name = ${{{t}}} and cf = ${{{u}}}]/label = ${{{u}}}",
-                     "choice_filter": f"name = ${{{t}}}"}
+                     "choice_filter": f"name = ${{{t}}}",
+                     # plain references to the same names in later columns of the same row (no current(), relative inside a repeat)
+                     "required": f"${{{t}}} = 103 or ${{{u}}} = 104", "bind::bz": f"${{{t}}} = 106"}
         elif shape == "trigger":
             cells = {"trigger": f"${{{t}}}", "calculation": f"${{{u}}} + 105"}
         elif shape == "cont":
